@@ -161,9 +161,6 @@ func init() {
 		"(*sync.WaitGroup).Add":   nop,
 		"(*sync.WaitGroup).Done":  nop,
 		"(*sync.WaitGroup).Wait":  nop,
-		"sync.NewCond": func(w *Worker, _ *ssa.Function, _ []Value, _ ssa.CallInstruction) Value {
-			return OpaqueV{"sync.Cond"}
-		},
 		"(*strings.Builder).copyCheck": nop,
 		"internal/abi.NoEscape": func(w *Worker, _ *ssa.Function, args []Value, _ ssa.CallInstruction) Value { return args[0] },
 		"internal/abi.Escape":   func(w *Worker, _ *ssa.Function, args []Value, _ ssa.CallInstruction) Value { return args[0] },
